@@ -99,6 +99,12 @@ claim("C16",
       STATIC_NOTE + "decred secp256k1 arithmetic (DecompressY, SetBytes overflow flag, IsOverHalfOrder) trusted. Not decided: field/scalar arithmetic, test-vector equality.",
       "DESIGN.md §4 C16")
 
+claim("C13",
+      "SSA reject-guard inventory over every function of internal/ot; access-path rule pairing each index into a peer-supplied slice with a dominating length guard on the same path and each use of a pointer/interface message field with a dominating nil guard (callee-entry guards and validation helpers resolved); must-precede rule on the extended-OT transcript (all OTParam columns of U written before the digest chi is read from, both sides); sibling rule on the multiplication's chi sampling / gadget; uniform bit-addressing rule",
+      "Decides the parts of the property that are visible in the shape of the code for every input and every altered message: each consistency check of the stack (Schnorr proof of the setup point, random-OT challenge/response, batch sizes, KOS monochrome check, multiplication integrity check) exists, is fed by the received fields and gates every accepting exit; an altered message cannot crash the checking side through a short slice or a null field; the check weights bind the whole correlation message on both sides; both sides of the multiplication derive chi and the gadget identically; every bit access uses one bit order (the 'wrong bit order in the gadget or transpose' class). The algebraic relations themselves (receiver gets the chosen pad, t = q xor choice*Delta, shares add up to alpha*beta) quantify over run-time values and are NOT decided.",
+      STATIC_NOTE + "tables/round_guards.json (internal/ot entries). Not decided: the arithmetic identities, GF(2^128) multiplication in accumulate, security of KOS/Doerner.",
+      "DESIGN.md §4 C13")
+
 for p, why in {
     "C01": "not built yet", "C02": "not built yet", "C03": "not built yet", "C04": "not built yet", "C05": "not built yet",
     "C06": "not built yet", "C07": "not built yet", "C08": "not built yet", "C09": "not built yet", "C10": "not built yet",
